@@ -245,9 +245,9 @@ def run_inject(spec, k=None):
             return res
         where = inj.fired
         res.label("fired-in:" + where[2], "scenario:" + spec["scenario"])
-        res.nontrivial = where[2] in ("compile", "register_signature", "resolve", "__missing__", "recode", "adapt_function",
-                                      "register", "generate_dispatch", "mro", "analyze_arguments", "_update", "_register",
-                                      "wrap_dependent", "instantiate_code", "rename_function", "first_entry")
+        # the fault struck strictly inside the operation (not at its very first / last lines), i.e. after the
+        # operation may have started to write shared state and before it finished
+        res.nontrivial = 3 <= k <= total - 2
         res.key = f"{spec['scenario']}:{where[0]}:{where[1]}"
         ids = registered_ids(prog)
         if not ids:
@@ -393,7 +393,7 @@ def run_hook(spec):
             raise HarnessExc("hook fault")
 
     from ovld import Dependent, class_check
-    from ovld.mro import typeorder
+    from vlib.api import typeorder
 
     K = env
 
@@ -495,9 +495,9 @@ class Check:
             t += [{"kind": "enum", "seed": seed * 1000 + 700 + i, "sets": 1, "stride": 9, "offset": i} for i in range(2)]
             # the multi-step writes of a resolution sit at the end of the operation: enumerate that part densely
             t += [{"kind": "enum", "seed": seed * 1000 + 800 + i, "sets": 1, "stride": 1, "offset": 0, "tail": 0.22}
-                  for i in range(4)]
+                  for i in range(3)]
             # ... and the change of the method set itself sits at the very start of a re-registration
-            t += [{"kind": "enum", "seed": seed * 1000 + 850 + i, "sets": 3, "stride": 1, "offset": 0, "head": 160,
+            t += [{"kind": "enum", "seed": seed * 1000 + 850 + i, "sets": 2, "stride": 1, "offset": 0, "head": 160,
                    "scenarios": ["rebuild"]} for i in range(4)]
             return t
         t = [{"kind": "rand", "seed": seed * 1000 + i, "n": 3000} for i in range(8)]
